@@ -108,9 +108,9 @@ TableF(d, K) ==
             LET r  == pos - 1
                 ia == r \div (M * M * M)
             IN  PackF(<<A[ia + 1][1], A[ia + 1][2], A[ia + 1][3],
-                        ((r \div (M * M)) % M) - k, ((r \div M) % M) - k, (r % M) - k>>)]
+                        ((r \div (M * M)) % M) - k, ((r \div M) % M) - k, (r % M) - k>>)] \o <<>>   \* (\o forces TLC to build the array once)
 \* psiF, clmoF for degrees 0..D  (sequence index d+1)
-TablesF(D, K) == [i \in 1 .. D + 1 |-> TableF(i - 1, K)]
+TablesF(D, K) == [i \in 1 .. D + 1 |-> TableF(i - 1, K)] \o <<>>
 
 SetMax(S) == CHOOSE x \in S : \A y \in S : y <= x
 \* _create_encode_dict_fourier + _encode_fourier_index: dictionary word -> position, a later
